@@ -41,6 +41,13 @@ ASSUMPTIONS = [
     "the quantifier and are not judged by the oracle)",
     "a Local object whose mode is exactly 0o444 is trusted (the property's `not write-protected`)",
     "object ids of one add call are pairwise distinct; sources exist; copies do not fail",
+    "the verification that counts is the EFFECTIVE one of the call: the per-call flag when it is False/True, the store "
+    "default when it is absent or None; transfer()/index push pass verify=False explicitly, so a store configured "
+    "verify=True does not verify what is pushed into it (by design of HashFileDB.add; model and oracle follow the "
+    "effective flag)",
+    "index checkout (index/checkout.py apply) has no integrity step by design and is outside C07's anchors "
+    "(hashfile/checkout.py is the checkout the statement means): it serves a corrupt unprotected cache object; this is "
+    "measured on every run (coverage.probes) and not judged",
     "the order in which diff() checks the entries of a directory target (iteration of a Python set) is observed "
     "and passed to the model; the theorems hold for every order",
     "_checksum (fsspec tokenize of [ino, mtime, size]) is injective on the tokens in play",
@@ -69,6 +76,31 @@ MODES = [0o644, 0o444, 0o600, 0o664, 0o400]
 ABSENT = "0" * 32
 
 
+def _names():
+    """Coq abbreviations for the byte strings that recur in every case (pool contents, their ids with
+    and without the .dir suffix, the absent id): the case terms refer to them by name, which cuts the
+    time coqc spends on elaborating list literals by an order of magnitude"""
+    import hashlib
+
+    out = {}
+    for k, b in enumerate(POOL):
+        h = hashlib.md5(b).hexdigest()  # noqa: S324
+        if b:
+            out[cbytes(b)] = f"pb{k}"
+        out[cbytes(h)] = f"ph{k}"
+        out[cbytes(h + ".dir")] = f"pd{k}"
+    out[cbytes(ABSENT)] = "pabs"
+    out[cbytes(ABSENT + ".dir")] = "pabsd"
+    out[cbytes("md5")] = "pmd5"
+    return out
+
+
+def shrink(term):
+    for lit, name in NAMES:
+        term = term.replace(lit, name)
+    return term
+
+
 def tree_listing(ents):
     """[(name, md5 of POOL[k])] of a tree reference ["tree", [[name, k], ...]]"""
     return [(nm, hx(POOL[k])) for nm, k in ents]
@@ -89,6 +121,11 @@ def src_bytes(ref, sk):
 
 
 SHARED: dict = {}
+
+
+NAMES = sorted(_names().items(), key=lambda kv: -len(kv[0]))
+IMPORTS += "\nImport ListNotations.\nOpen Scope N_scope.\n" + "\n".join(
+    f"Definition {name} : list N := {lit}." for lit, name in NAMES)
 
 
 class Clock:
@@ -317,7 +354,10 @@ def run_case(ctx, case):
                 pre = R.snap()
             if kind == "add":
                 _, verify, items = op
-                eff = R.odb.verify if verify is None else verify
+                # the per-call flag: None = absent, "none" = passed explicitly as verify=None (both mean: the
+                # store default), False, True
+                vflag = None if verify in (None, "none") else verify
+                eff = R.odb.verify if vflag is None else vflag
                 oids = [oid_of(r) for r, _ in items]
                 for o in oids:
                     R.known.add(o)
@@ -331,7 +371,9 @@ def run_case(ctx, case):
                     paths.append(p)
                 R.advance_wall_clock()
                 errs = []
-                kw = {} if verify is None else {"verify": verify}
+                kw = {} if verify is None else {"verify": vflag}
+                if verify == "none":
+                    tags.add("add:verify=None-explicit")
                 try:
                     n = R.odb.add(paths, localfs, oids, on_error=lambda o, e: errs.append((o, exc_code(e))), **kw)
                     res = ("ok", n)
@@ -347,10 +389,10 @@ def run_case(ctx, case):
                     else:
                         R.note_wall(o)
                     its.append("(%s, %s, %s)" % (cbytes(o), cbytes(src_bytes(r_, sk)), tok_term(st)))
-                ops_t.append(ctor("OAdd", copt(verify, cbool), clist(its)))
+                ops_t.append(ctor("OAdd", copt(vflag, cbool), clist(its)))
                 if R.ro:
                     # add through a read_only=True handle: refused (after the pre-verification)
-                    ops_t[-1] = ctor("OAddRO", copt(verify, cbool), clist(its))
+                    ops_t[-1] = ctor("OAddRO", copt(vflag, cbool), clist(its))
                     tags.add("ro:add")
                     if res == ("exc", "ObjectDBPermissionError"):
                         outs.append(vL([vN(1), vN(1)]))
@@ -720,6 +762,8 @@ def run_case(ctx, case):
                 from dvc_data.hashfile.transfer import transfer
 
                 _, ref, change, verify, hardlink = op[:5]
+                vflag = None if verify == "none" else bool(verify)   # transfer(verify=None) reaches add as None
+                verify = R.case.get("verify", False) if vflag is None else vflag   # the effective flag
                 from_odb = len(op) > 5 and op[5] == "odb"   # the source is another object store (fetch)
                 o = oid_of(ref)
                 R.known.add(o)
@@ -751,7 +795,7 @@ def run_case(ctx, case):
 
                     rdir = os.path.join(R.root, f"remote{R.wsn}")
                     impl.plant(rdir, o, new, mode=0o444)
-                    staging = _HDB(R.fs, rdir, hash_name=ALG[0], verify=verify)
+                    staging = _HDB(R.fs, rdir, hash_name=ALG[0], verify=vflag)
                     tags.add("xfer:from-odb")
                 pre = R.snap()
                 R.advance_wall_clock()
@@ -761,7 +805,7 @@ def run_case(ctx, case):
                     dest = R.mk_odb()
                     R.ro = True
                 try:
-                    res = transfer(staging, dest, {HashInfo(ALG[0], o, obj_name="ws/label")}, verify=verify,
+                    res = transfer(staging, dest, {HashInfo(ALG[0], o, obj_name="ws/label")}, verify=vflag,
                                    hardlink=hardlink and not from_odb)
                     tr, fl = sorted(h.value for h in res.transferred), sorted(h.value for h in res.failed)
                     code = 0
@@ -778,7 +822,7 @@ def run_case(ctx, case):
                         st = {"ino": 0, "mtime_ns": R.syn, "size": len(new)}
                 else:
                     R.note_wall(o)
-                ops_t.append(ctor("OXfer", cbool(verify), clist(["(%s, %s, %s)" % (cbytes(o), cbytes(new), tok_term(st))])))
+                ops_t.append(ctor("OXfer", copt(vflag, cbool), clist(["(%s, %s, %s)" % (cbytes(o), cbytes(new), tok_term(st))])))
                 if code == 0:
                     outs.append(vL([vN(7), vset(tr), vset(fl)]))
                 elif R.fault and code == 98:
@@ -788,6 +832,8 @@ def run_case(ctx, case):
                     outs.append(vL([vN(99)]))
                     fail("C07:transfer-raised", f"transfer raised (code {code})")
                 tags.add("xfer:" + ("verify" if verify else "plain") + ("/hardlink" if hardlink else "/copy"))
+                if vflag is None:
+                    tags.add("xfer:verify=None-explicit")
                 judge_unharmed(pre, post, "transfer")
                 p = pre[o]
                 if verify and code == 0 and not (p["exists"] and (not p["honest"] or (R.cls == "local" and p["mode"] == 0o444 and not p["intact"]))) \
@@ -850,7 +896,7 @@ def run_case(ctx, case):
     inp = ctor("Case", "Local" if case["cls"] == "local" else "Base", cbytes(ALG[0]), cbool(case["state"]),
                cbool(case.get("verify", False)), cN(0o666 & ~UMASK), tbl, clist(ops_t))
     inp = ctor("FCase", inp, copt(case.get("fault"), cbytes))
-    return inp, exp, problems, nontrivial, tags
+    return shrink(inp), shrink(exp), problems, nontrivial, tags
 
 
 ABORT = vL([vN(1), vN(98)])   # the operation was left by the OSError of a failed removal
@@ -1146,10 +1192,17 @@ def audit_cases():
                      [["add", None, [[B, 1]]], ["xfer", T, change, verify, False, "odb"], ["check", T],
                       ["exist", [T]], ["checkout", T]])
         # store default verify=True with the per-call flag absent / overriding
-        for v in (None, False, True):
-            out.append({"cls": cls, "state": True, "verify": True, "tag": f"audit:store-verify/{v}",
-                        "ops": [["add", v, [[T, 5], [B, 1]]], ["check", T], ["exist", [T, B]],
-                                ["xfer", O, "append", False, False], ["check", O]]})
+        # the per-call flag absent / None passed explicitly / False / True, for both store defaults, through
+        # add and through transfer (copy and hard link), every source change
+        for sv in (True, False):
+            for v in (None, "none", False, True):
+                for n_, change in enumerate(("append", "truncate", "rewrite", "empty", "none")):
+                    out.append({"cls": cls, "state": n_ % 2 == 0, "verify": sv,
+                                "tag": f"audit:store-verify={sv}/call={v}/{change}",
+                                "ops": [["add", v, [[T, 5 if change != "none" else 0], [B, 1]]], ["check", T],
+                                        ["exist", [T, B]],
+                                        ["xfer", O, change, "none" if v in (None, "none") else v, n_ % 2 == 1],
+                                        ["check", O], ["add", v, [[T, 0], [O, 3]]], ["check", T], ["check", O]]})
         # directory listings: odd and nested names, two names for one object, the empty listing
         names = [["we\\ird name.txt", 0], [".hidden", 1], ["sub/deep/\u0444\u0430\u0439\u043b.dir", 3], ["imgs", 4], ["imgs_raw", 6]]
         for pattern in ("append", "none"):
@@ -1242,7 +1295,7 @@ def random_case(rng):
                     continue
                 seen.add(oid_of(kr))
                 items.append([kr, kr[0] if rng.random() < 0.7 else rng.randrange(len(POOL))])
-            ops.append(["add", rng.choice([None, True, True, False]), items])
+            ops.append(["add", rng.choice([None, "none", True, True, False]), items])
         elif r < 0.32:
             ops.append(["check", ref])
         elif r < 0.42:
@@ -1256,7 +1309,7 @@ def random_case(rng):
             ops.append(["reopen"])
         elif r < 0.51:
             ops.append(["xfer", [rng.randrange(5), ""], rng.choice(["none", "append", "truncate", "rewrite", "replace", "empty"]),
-                        rng.random() < 0.7, rng.random() < 0.5])
+                        rng.choice([True, True, False, "none"]), rng.random() < 0.5])
         elif r < 0.52:
             ops.append(["handle", rng.choice(["ro", "ro", "rw"])])
         elif r < 0.74:
@@ -1363,7 +1416,8 @@ def run(ctx):
             "checkout:intact", "checkoutdir:tampered", "checkoutdir:intact", "env:reopen", "add:verify",
             "fault:check-aborted", "fault:exist-aborted", "fault:checkout-aborted", "fault:checkoutdir-aborted",
             "fault:add-aborted", "env:handle:ro", "ro:add", "checktree:tampered:own", "checktree:intact",
-            "xfer:verify/hardlink", "xfer:verify/copy", "xfer:corrupt-source"}
+            "xfer:verify/hardlink", "xfer:verify/copy", "xfer:corrupt-source", "add:verify=None-explicit",
+            "xfer:verify=None-explicit"}
     ctx.obligation("generator:coverage", need <= seen_tags, "missing: " + ", ".join(sorted(need - seen_tags)))
     if not need <= seen_tags:
         ctx.broken("correspondence", "generator:coverage", "the generators no longer reach " + ", ".join(sorted(need - seen_tags)))
